@@ -20,7 +20,7 @@ import traceback
 ROOT = os.path.dirname(os.path.dirname(os.path.abspath(__file__)))
 REPO = os.environ.get("VERIF_REPO", "/repo")
 
-LEMMA_MODULES = ["lemmas.asm_forms", "lemmas.asm_special", "lemmas.asm_data", "lemmas.asm_expr", "lemmas.asm_layout", "lemmas.asm_passes", "lemmas.asm_symbols", "lemmas.asm_addr",
+LEMMA_MODULES = ["lemmas.asm_forms", "lemmas.asm_special", "lemmas.asm_data", "lemmas.asm_expr", "lemmas.asm_layout", "lemmas.asm_passes", "lemmas.asm_symbols", "lemmas.asm_addr", "lemmas.asm_text",
                  "lemmas.tape", "lemmas.tape_reader", "lemmas.tape_bridge", "lemmas.disk", "lemmas.disk_wtg", "lemmas.disk_addfile", "lemmas.disk_reader", "lemmas.disk_bridge", "lemmas.vfile", "lemmas.cli", "lemmas.frames", "lemmas.meta", "lemmas.include"]
 
 
